@@ -28,6 +28,8 @@ SPECS = [
     {'conv': 'cf2d', 'ny': 3, 'nx': 3, 'lon_transposed': True}, {'conv': 'cf2d', 'ny': 2, 'nx': 4, 'lon_transposed': True, 'holes': [[1, 2]]},
     {'conv': 'cf2d', 'ny': 3, 'nx': 3, 'lon_transposed': True, 'bounds': 'vars'},
     {'conv': 'shoc_standard', 'ny': 3, 'nx': 3, 'x_transposed': ['x_grid', 'x_centre']}, {'conv': 'shoc_standard', 'ny': 2, 'nx': 4, 'x_transposed': ['x_grid']},
+    # a 0..360 longitude grid across the antimeridian: positions, centres and polygons all in the dataset's own longitudes
+    {'conv': 'cf1d', 'ny': 2, 'nx': 5, 'origin': [165.0, -20.0], 'step': [10.0, 1.0]}, {'conv': 'cf1d', 'ny': 2, 'nx': 4, 'origin': [175.0, -20.0], 'step': [5.0, 1.0], 'bounds': 'vars'},
     # the face-node table stored (max nodes, faces), the Fortran / FVCOM layout, with mixed triangles and quadrilaterals
     {'conv': 'ugrid', 'ny': 2, 'nx': 3, 'split': [[0, 1]], 'face_coords': True, 'latitude_first': True},
     {'conv': 'ugrid', 'ny': 2, 'nx': 3, 'split': [[0, 1]], 'transposed': True}, {'conv': 'ugrid', 'ny': 3, 'nx': 2, 'split': [[1, 1]], 'transposed': True, 'start_index': 1},
